@@ -17,6 +17,8 @@ def main():
     try:
         mod = importlib.import_module("vmon.props." + modname)
         res = mod.run_shard(spec)
+        if sys.flags.optimize:
+            res.setdefault("counters", {})["evaluations_under_python_-O"] = res.get("evaluations", 0)
     except BaseException as e:   # harness failure: inconclusive, never a violation
         res = {"evaluations": 0, "nontrivial": [], "counters": {}, "monitors": {}, "samples": [],
                "violations": [], "violation_counts": {},
